@@ -52,11 +52,13 @@ PropClauses(o) ==
   \cup (IF o.same = 0 \/ o.identity = 1 THEN {} ELSE {"IdentityWhenMeshesCoincide"})
   \cup (IF o.flux = 1 THEN {} ELSE {"SameHeatOnBothMeshes"})
 TrProps == Live("Props") /\ Note(PropClauses(Ev))
+\* cells between two sides that no pin bundle defines are one hexagon side long
+TrCells == Live("Cells") /\ Note(IF Ev.got >= Ev.want THEN {} ELSE {"CornerOnlySidesMeetAtMidSide"})
 TrFail == Live("BuildFailed") /\ Note({"MapCanBeBuilt"})
 Report == /\ ~done /\ l > Len(T.ev)
           /\ PrintT(<<"VERDICT", tid, IF verdict = {} THEN "accept" ELSE "reject",
                       IF firstbad # 0 THEN firstbad ELSE l - 1, verdict>>)
           /\ done' = TRUE /\ UNCHANGED <<tid, l, verdict, firstbad>>
-Next == TrF2C \/ TrC2F \/ TrProps \/ TrFail \/ Report
+Next == TrF2C \/ TrC2F \/ TrProps \/ TrCells \/ TrFail \/ Report
 Spec == Init /\ [][Next]_vars
 =============================================================================
